@@ -7,9 +7,10 @@ export PYTHONPATH=$wt/src
 ./build_ext.sh >/dev/null 2>&1
 /venv/bin/python _seed/demo.py >/dev/null 2>&1; with=$?
 git diff > /tmp/confirm_$(basename $wt).diff
-git stash -q; ./build_ext.sh >/dev/null 2>&1
+# (no git stash here: the stash is shared by all worktrees of a repository)
+git checkout -- . ; ./build_ext.sh >/dev/null 2>&1
 /venv/bin/python _seed/demo.py >/dev/null 2>&1; without=$?
-git stash pop -q; ./build_ext.sh >/dev/null 2>&1
+git apply --whitespace=nowarn /tmp/confirm_$(basename $wt).diff; ./build_ext.sh >/dev/null 2>&1
 /venv/bin/python -m pytest -q -p no:cacheprovider --timeout=900 --continue-on-collection-errors --junitxml=/tmp/confirm_$(basename $wt).xml src/hydrodiy >/dev/null 2>&1
 rm -rf src/hydrodiy/io/tests/run_scripts
 /venv/bin/python - <<PY
